@@ -86,3 +86,16 @@ def _(self):
     # every document -- also the empty one -- is processed for the document
     # type before it is handed to the constructors
     ensures(proc_rel(composed_document(), document_type(), result))
+
+
+@contract("yatiml/loader.py::Loader.__reject_recursive_aliases")
+def _(self, node, ancestors, done):
+    # depth-first search for a node that contains an alias to itself; uses
+    # object identity (id()), which the value model of nodes cannot express:
+    # assumed contract, exercised by the bounded alias stand-in (C18)
+    trusted()
+    bounded()
+    sort('ancestors', 'opaque')
+    sort('done', 'opaque')
+    raises(RecognitionError)
+    raises_msg(RecognitionError, lambda m: cites(m))
